@@ -239,6 +239,33 @@ def make_shape(root_spelling, root, seglens, sep):
     return q
 
 
+# characters that Unicode compatibility normalisation / case folding / "fixing" of names turns into '.', '..', '...' or a
+# separator (full-width and small forms, one/two-dot leaders, ellipsis, division and fraction slashes) next to the real ones
+DOT_LIKE = [".", "\uff0e", "\u2024", "\ufe52", "\u2025", "\u2026"]
+SEP_LIKE = ["/", "\\", "\uff0f", "\uff3c", "\ufe68", "\u2215"]
+LOOK_TAILS = ["s", "r2/s", "rx", "r/f"]
+
+
+def make_lookalike(root_spelling, root, levels):
+    """name = (dot-like dot-like separator-like) x levels + a tail that names a file beside / above the root: every choice
+    of the look-alike characters (solver indices into concrete lists, so code that normalises the name works on concrete
+    text under the engine)"""
+    def q(d1: int, d2: int, s1: int, d3: int, d4: int, s2: int, t: int, head: bool):
+        for d in (d1, d2, d3, d4):
+            assume(0 <= d < len(DOT_LIKE))
+        for x in (s1, s2):
+            assume(0 <= x < len(SEP_LIKE))
+        assume(0 <= t < len(LOOK_TAILS))
+        if levels == 1:
+            assume(d3 == 0 and d4 == 0 and s2 == 0)
+        name = DOT_LIKE[d1] + DOT_LIKE[d2] + SEP_LIKE[s1]
+        if levels == 2:
+            name = name + DOT_LIKE[d3] + DOT_LIKE[d4] + SEP_LIKE[s2]
+        new_process()
+        return serve(root_spelling, root, name + LOOK_TAILS[t], head)
+    return q
+
+
 def make_twice(root_spelling, first, second, nmin, nmax):
     """Two calls in one process with the same (relative) root string and a different working directory: a harmless
     concrete request from `first` = (cwd, what the root names there), then every name from `second`.  Each call is
@@ -559,6 +586,17 @@ def build(tier):
             timeout = 120 if len(seglens) == 3 else 450          # measured <= 41 / <= 145 CPU s
             out.append(Q(qid, make_shape(spelling, root, seglens, sep), bound, timeout=timeout, expect_cover=ALL_COVER,
                          family="shape", config={"root": spelling, "segments": list(seglens), "sep": sep}))
+    for tag, spelling, root in ROOTS:
+        if tag not in (("abs", "rel") if not T else MAIN):
+            continue
+        for levels in ((1,) if not T else (1, 2)):
+            if levels == 2 and tag != "abs":
+                continue
+            out.append(Q("lookalike/%s/up%d" % (tag, levels), make_lookalike(spelling, root, levels),
+                         "root %r; names made of %d group(s) of two dot-like characters %r and one separator-like character %r "
+                         "followed by one of %r (all choices; solver indices); GET and HEAD" % (spelling, levels, DOT_LIKE, SEP_LIKE, LOOK_TAILS),
+                         timeout=300 if levels == 1 else 900, expect_cover=["refused-403", "refused-404"], family="lookalike",
+                         config={"root": spelling, "levels": levels}))
     # the same relative root string under two working directories (tag, spelling, {cwd: what the root names})
     twice = [("rel", "r", ("/d", ("d", "r")), ("/", ("r",)))]
     if T:
